@@ -1,11 +1,11 @@
-\* Thorough: 4 lines per block, 2 objects; stop-the-world plans.
+\* Thorough: 4 lines per block, 2 objects; Immix and StickyImmix without the skipped collections.
 SPECIFICATION Spec
 CONSTANTS
   MAX = 3
   Blocks = {b1, b2}
   NL = 4
   MaxObjs = 2
-  Kinds = {"alloc", "major", "nursery", "copy", "skip"}
+  Kinds = {"alloc", "major", "nursery", "copy"}
   Mutant = "none"
 INVARIANTS
   TypeOK
